@@ -353,6 +353,14 @@ func (s *subscriber) sendMessageToSubscriber(msg *message.Message, logFields wat
 	ctx, cancelCtx := context.WithCancel(s.ctx)
 	defer cancelCtx()
 
+	select {
+	case <-s.closing:
+		// the previous message could be left unsettled, don't deliver the next one
+		s.logger.Trace("Closing, message discarded", logFields)
+		return
+	default:
+	}
+
 SendToSubscriber:
 	for {
 		// copy the message to prevent ack/nack propagation to other consumers
